@@ -319,10 +319,14 @@ def _run_page(sc):
         sig, msg = payload.sig, payload.msg
         if not sig.startswith(PROPERTY + "/"):
             sig = f"{PROPERTY}/{sig}"
-    elif status == "ok" and w.audited:
-        w.probe("probe.page_audit_completed")
+    elif status == "ok":
+        if w.audited:
+            w.probe("probe.page_audit_completed")
         try:
-            w.final_checks()
+            if w.audited:
+                w.final_checks()
+            elif w.pending_loss:  # run ended (no write-back can still be in flight) with an unpaid lost write
+                raise H.Violation(w.pending_loss[0]["sig"], w.pending_loss[0]["msg"])
         except H.Violation as v:
             sig, msg = v.sig, v.msg
     counters = dict(w.probes)
